@@ -1484,7 +1484,7 @@ fn main() {
     }
 
     // random abstract filters through every front-end that can express them
-    let n = a.count.unwrap_or(if quick { 260 } else if a.tier == "search" { 1500 } else { 6000 });
+    let n = a.count.unwrap_or(if quick { 260 } else if a.tier == "search" { 500 } else { 6000 });
     for i in 0..n {
         let af = match i % 5 {
             0 => gen_ids_only(&mut rng, true),
@@ -1513,7 +1513,7 @@ fn main() {
     }
 
     // raw inputs (valid and malformed) for the correspondence of the loaders
-    let n_raw = a.count.unwrap_or(if quick { 240 } else if a.tier == "search" { 600 } else { 4000 });
+    let n_raw = a.count.unwrap_or(if quick { 240 } else if a.tier == "search" { 300 } else { 4000 });
     for i in 0..n_raw {
         let fe = match i % 8 {
             0..=3 => gen_raw_json(&mut rng),
